@@ -73,7 +73,8 @@ func (c *Check) mappingHandOver() {
 		}
 		key := fmt.Sprintf("handover:%s→%s#%d", w.caller, w.callee, w.arg)
 		n := 0
-		for _, b := range f.Blocks {
+		// (the hand-over may be made by a helper of the anchored function)
+		for _, b := range helperBlocks(f, 2) {
 			for _, ins := range b.Instrs {
 				call, ok := ins.(*ssa.Call)
 				if !ok || call.Call.StaticCallee() == nil || call.Call.StaticCallee().Name() != w.callee || w.arg >= len(call.Call.Args) {
@@ -84,7 +85,7 @@ func (c *Check) mappingHandOver() {
 				if callee := call.Call.StaticCallee(); w.arg < len(callee.Params) {
 					pname = callee.Params[w.arg].Name()
 				}
-				got, ok := linForm(call.Call.Args[w.arg], name(f))
+				got, ok := linForm(call.Call.Args[w.arg], name(b.Parent()))
 				switch {
 				case !ok:
 					c.undecided("C13-R7", key, p.relFile(call.Pos()), "argument "+pname+" of "+w.callee+" is not a sum of mapping parameters and the address")
@@ -226,7 +227,7 @@ func (c *Check) errorDiscipline() {
 					bad := ""
 					if val != nil {
 						reach := reachUnder(f, func(cond ssa.Value) int {
-							if cmp, ok := cond.(*ssa.BinOp); ok && (cmp.X == ssa.Value(errv) || cmp.Y == ssa.Value(errv)) {
+							if cmp, ok := cond.(*ssa.BinOp); ok && (sameErrValue(cmp.X, errv) || sameErrValue(cmp.Y, errv)) {
 								switch cmp.Op {
 								case token.NEQ:
 									return 1
@@ -290,7 +291,7 @@ func dominatedByErrTest(f *ssa.Function, errv ssa.Value, use ssa.Instruction) bo
 			continue
 		}
 		cmp, ok := iff.Cond.(*ssa.BinOp)
-		if !ok || !(cmp.X == errv || cmp.Y == errv) {
+		if !ok || !(sameErrValue(cmp.X, errv) || sameErrValue(cmp.Y, errv)) {
 			continue
 		}
 		// which successor leads to use?
@@ -724,11 +725,14 @@ func (c *Check) computeBaseRange() {
 		return
 	}
 	var fph *ssa.Call
-	for _, b := range f.Blocks {
-		for _, ins := range b.Instrs {
-			if call, ok := ins.(*ssa.Call); ok && call.Call.StaticCallee() != nil && call.Call.StaticCallee().Name() == "findProgramHeader" {
-				fph = call
-			}
+	// (the search for the segment may sit in a helper that computeBase calls: the call of that
+	// helper stands for it)
+	for _, es := range effectiveSites(f, func(ins ssa.Instruction) bool {
+		call, ok := ins.(*ssa.Call)
+		return ok && call.Call.StaticCallee() != nil && call.Call.StaticCallee().Name() == "findProgramHeader"
+	}, 2) {
+		if call, ok := es.at.(*ssa.Call); ok {
+			fph = call
 		}
 	}
 	if fph == nil {
@@ -1302,8 +1306,131 @@ func (c *Check) baseStoredWhenComputed() {
 	if cb == nil || getBase == nil {
 		return
 	}
+	// check: after call (whose result bIdx is the base and eIdx the error) returned without
+	// error, fn stores the base in file.base on every path - or hands it back, with a nil
+	// error, to callers that do.  Returns "" when that holds, else a description and position.
+	var check func(fn *ssa.Function, call *ssa.Call, bIdx, eIdx, depth int) (string, token.Pos)
+	check = func(fn *ssa.Function, call *ssa.Call, bIdx, eIdx, depth int) (string, token.Pos) {
+		var basev, errv ssa.Value
+		if call.Referrers() != nil {
+			for _, r := range *call.Referrers() {
+				if ex, ok := r.(*ssa.Extract); ok {
+					if ex.Index == bIdx {
+						basev = ex
+					} else if ex.Index == eIdx {
+						errv = ex
+					}
+				}
+			}
+		}
+		if basev == nil {
+			return fnName(fn) + " does not use the base that " + call.Call.StaticCallee().Name() + " computed", call.Pos()
+		}
+		isBase := func(v ssa.Value) bool { return sameErrValue(v, basev) }
+		var store *ssa.Store
+		for _, b2 := range fn.Blocks {
+			for _, i2 := range b2.Instrs {
+				if st, ok := i2.(*ssa.Store); ok && isBase(st.Val) {
+					if fa, ok := st.Addr.(*ssa.FieldAddr); ok {
+						if T, F := fieldOf(fa.X.Type(), fa.Field); T == "binutils.file" && F == "base" {
+							store = st
+						}
+					}
+				}
+			}
+		}
+		assume := func(cond ssa.Value) int {
+			cmp, ok := cond.(*ssa.BinOp)
+			if !ok || errv == nil || !(sameErrValue(cmp.X, errv) || sameErrValue(cmp.Y, errv)) {
+				return 0
+			}
+			switch cmp.Op {
+			case token.NEQ:
+				return -1
+			case token.EQL:
+				return 1
+			}
+			return 0
+		}
+		// the returns reachable from the call on its success side, not passing the store
+		var rets []*ssa.Return
+		seen := map[*ssa.BasicBlock]bool{}
+		var walk func(x *ssa.BasicBlock)
+		walk = func(x *ssa.BasicBlock) {
+			if seen[x] || (store != nil && x == store.Block()) {
+				return
+			}
+			seen[x] = true
+			switch last := x.Instrs[len(x.Instrs)-1].(type) {
+			case *ssa.Return:
+				rets = append(rets, last)
+				return
+			case *ssa.If:
+				switch assume(last.Cond) {
+				case 1:
+					walk(x.Succs[0])
+					return
+				case -1:
+					walk(x.Succs[1])
+					return
+				}
+			}
+			for _, sc := range x.Succs {
+				walk(sc)
+			}
+		}
+		if store == nil || call.Block() != store.Block() {
+			walk(call.Block())
+		}
+		if store != nil {
+			if len(rets) > 0 {
+				return fnName(fn) + " can return without storing the base that was computed successfully (a further test of the value)", rets[0].Pos()
+			}
+			return "", token.NoPos
+		}
+		// not stored here: every such return hands the base back (with a nil error)
+		if depth > 2 || len(rets) == 0 {
+			return fnName(fn) + " does not store the result of GetBase in file.base", call.Pos()
+		}
+		k := -1
+		for _, ret := range rets {
+			found := -1
+			for i, r := range ret.Results {
+				if isBase(r) {
+					found = i
+				}
+			}
+			if found < 0 || (k >= 0 && found != k) {
+				return fnName(fn) + " can return without handing back the base that was computed successfully", ret.Pos()
+			}
+			k = found
+			last := ret.Results[len(ret.Results)-1]
+			if sv := closestStoredValue(last); sv != nil {
+				last = sv // the named error result as last assigned before the return
+			}
+			if kk, isConst := last.(*ssa.Const); !isConst || !kk.IsNil() {
+				if !(errv != nil && sameErrValue(last, errv)) {
+					return fnName(fn) + " returns the computed base together with an error made up afterwards (a further test of the value)", ret.Pos()
+				}
+			}
+		}
+		sites, _ := directCallSites(p, fn)
+		if len(sites) == 0 {
+			return fnName(fn) + " computes the base but is never called", call.Pos()
+		}
+		for _, cs := range sites {
+			wc, ok := cs.(*ssa.Call)
+			if !ok {
+				continue
+			}
+			if why, pos := check(wc.Parent(), wc, k, fn.Signature.Results().Len()-1, depth+1); why != "" {
+				return why, pos
+			}
+		}
+		return "", token.NoPos
+	}
 	n := 0
-	for _, g := range withHelpers(cb, 1) {
+	for _, g := range withHelpers(cb, 2) {
 		for _, b := range g.Blocks {
 			for _, ins := range b.Instrs {
 				call, ok := ins.(*ssa.Call)
@@ -1312,84 +1439,10 @@ func (c *Check) baseStoredWhenComputed() {
 				}
 				n++
 				key := "base-stored:" + fnName(g)
-				var basev, errv ssa.Value
-				for _, r := range *call.Referrers() {
-					if ex, ok := r.(*ssa.Extract); ok {
-						if ex.Index == 0 {
-							basev = ex
-						} else {
-							errv = ex
-						}
-					}
-				}
-				var store *ssa.Store
-				for _, b2 := range g.Blocks {
-					for _, i2 := range b2.Instrs {
-						if st, ok := i2.(*ssa.Store); ok && st.Val == basev {
-							if fa, ok := st.Addr.(*ssa.FieldAddr); ok {
-								if T, F := fieldOf(fa.X.Type(), fa.Field); T == "binutils.file" && F == "base" {
-									store = st
-								}
-							}
-						}
-					}
-				}
-				if store == nil || basev == nil {
-					c.bad("C13-R8", key, p.relFile(call.Pos()), fnName(g)+" does not store the result of GetBase in file.base")
-					continue
-				}
-				assume := func(cond ssa.Value) int {
-					cmp, ok := cond.(*ssa.BinOp)
-					if !ok || errv == nil || !(cmp.X == errv || cmp.Y == errv) {
-						return 0
-					}
-					switch cmp.Op {
-					case token.NEQ:
-						return -1
-					case token.EQL:
-						return 1
-					}
-					return 0
-				}
-				var escape *ssa.BasicBlock
-				seen := map[*ssa.BasicBlock]bool{}
-				var walk func(x *ssa.BasicBlock)
-				walk = func(x *ssa.BasicBlock) {
-					if seen[x] || x == store.Block() || escape != nil {
-						return
-					}
-					seen[x] = true
-					switch last := x.Instrs[len(x.Instrs)-1].(type) {
-					case *ssa.Return:
-						escape = x
-						return
-					case *ssa.If:
-						switch assume(last.Cond) {
-						case 1:
-							walk(x.Succs[0])
-							return
-						case -1:
-							walk(x.Succs[1])
-							return
-						}
-					}
-					for _, sc := range x.Succs {
-						walk(sc)
-					}
-				}
-				if b != store.Block() {
-					walk(b)
-				}
-				if escape != nil {
-					pos := call.Pos()
-					for _, i2 := range escape.Instrs {
-						if i2.Pos() != token.NoPos {
-							pos = i2.Pos()
-						}
-					}
-					c.bad("C13-R8", key, p.relFile(pos), fnName(g)+" can return without storing the base that GetBase computed successfully (a further test of the value): the base is a wrapped 64-bit difference and is above the mapping start whenever the object is mapped below its link address; such objects then get a sticky error and no address in the mapping is symbolized")
+				if why, pos := check(g, call, 0, 1, 0); why != "" {
+					c.bad("C13-R8", key, p.relFile(pos), why+": the base is a wrapped 64-bit difference and is above the mapping start whenever the object is mapped below its link address; such objects then get a sticky error and no address in the mapping is symbolized")
 				} else {
-					c.ok("C13-R8", key, p.relFile(store.Pos()), "a base computed without error is always stored", "no return is reachable from the GetBase call on its err == nil side without passing the store to file.base")
+					c.ok("C13-R8", key, p.relFile(call.Pos()), "a base computed without error is always stored", "no return is reachable from the GetBase call on its err == nil side without passing the store to file.base (followed to the callers when the base is handed back)")
 				}
 			}
 		}
@@ -1399,6 +1452,54 @@ func (c *Check) baseStoredWhenComputed() {
 	}
 }
 
+// sameErrValue: v is the error value errv, or a read of the variable it was just stored in (a
+// named result or a variable kept in memory because of a defer): the load of a local cell
+// whose closest dominating store stores errv.
+func sameErrValue(v ssa.Value, errv ssa.Value) bool {
+	return sameErrValueD(v, errv, 0)
+}
+
+func sameErrValueD(v ssa.Value, errv ssa.Value, depth int) bool {
+	if v == errv {
+		return true
+	}
+	if depth > 4 {
+		return false
+	}
+	ld, ok := v.(*ssa.UnOp)
+	if !ok || ld.Op != token.MUL {
+		return false
+	}
+	al, ok := ld.X.(*ssa.Alloc)
+	if !ok || al.Referrers() == nil {
+		return false
+	}
+	var stores []*ssa.Store
+	for _, r := range *al.Referrers() {
+		if st, ok := r.(*ssa.Store); ok && st.Addr == ssa.Value(al) {
+			stores = append(stores, st)
+		}
+	}
+	for _, st := range stores {
+		if !instrDominates(st, ld) {
+			continue
+		}
+		// (a `return x, …` with named results and a defer stores x into itself first)
+		if st.Val != errv && !sameErrValueD(st.Val, errv, depth+1) {
+			continue
+		}
+		closest := true
+		for _, s2 := range stores {
+			if s2 != st && instrDominates(st, s2) && instrDominates(s2, ld) {
+				closest = false
+			}
+		}
+		if closest {
+			return true
+		}
+	}
+	return false
+}
 // isBaseErrValue: v is file.baseErr, read directly or handed back (as the only or the last
 // result) by a helper that runs the once and returns it.
 func isBaseErrValue(v ssa.Value) bool {
@@ -1426,4 +1527,38 @@ func isBaseErrValue(v ssa.Value) bool {
 		return len(ph.Edges) > 0
 	}
 	return false
+}
+
+// closestStoredValue: v is the load of a local cell; the value of the closest store that
+// dominates the load (nil when v is something else or no store dominates).
+func closestStoredValue(v ssa.Value) ssa.Value {
+	ld, ok := v.(*ssa.UnOp)
+	if !ok || ld.Op != token.MUL {
+		return nil
+	}
+	al, ok := ld.X.(*ssa.Alloc)
+	if !ok || al.Referrers() == nil {
+		return nil
+	}
+	var stores []*ssa.Store
+	for _, r := range *al.Referrers() {
+		if st, ok := r.(*ssa.Store); ok && st.Addr == ssa.Value(al) {
+			stores = append(stores, st)
+		}
+	}
+	for _, st := range stores {
+		if !instrDominates(st, ld) {
+			continue
+		}
+		closest := true
+		for _, s2 := range stores {
+			if s2 != st && instrDominates(st, s2) && instrDominates(s2, ld) {
+				closest = false
+			}
+		}
+		if closest {
+			return st.Val
+		}
+	}
+	return nil
 }
